@@ -350,6 +350,16 @@ struct W3
             report ("C12,C01,C13", "model.contents",
                     "contents differ from std::vector's (size " + itos (post_size) + " vs " + itos (long (cx.expect.size ())) + ")");
         }
+        {
+          // independent bound on max_size() itself: sizes must be representable in difference_type
+          // (end() - begin()) and must not exceed what the allocator can hand out
+          const long diff_max = static_cast<long> ((std::numeric_limits<typename SV::difference_type>::max) ());
+          const long alloc_max = static_cast<long> (std::allocator_traits<Al>::max_size (v.get_allocator ()));
+          if (max_size > diff_max || max_size > alloc_max)
+            report ("C12,C02", "max.max_size-too-large",
+                    "max_size() is " + itos (max_size) + " but difference_type can only represent " + itos (diff_max)
+                    + " and the allocator's max_size() is " + itos (alloc_max));
+        }
         if (ledger ().max_request > max_size)
           report ("C12", "max.allocate-beyond-max", "allocate(" + itos (ledger ().max_request) + ") was called; max_size() is " + itos (max_size));
         if (post_size > max_size)
